@@ -11,8 +11,9 @@ For the integrator of vlib/props/C07.py:
     cases = c07_cases(ctx.rng, ctx.tier)            # list of Case (op lines for the engine `plist`)
     ctx.differential(C07_ENGINE, cases, nontrivial=c07_nontrivial, oracle=c07_oracle, shrink=False)
   causes emitted (known_findings.json, property C07): `zero-length-string-length-minus-one` (D11),
-  `with-capacity-from-wire-length` (D13).  Cases carry a trailing `fix=` token for the model only; use
-  `set_fix_token(cases, probe_fixes())` to make it describe the tree under test (default: both fixes).
+  `with-capacity-from-wire-length` (D13).  Cases carry a trailing `fix=` token for the model only (11 = D11,
+  13 = D13, p1 = D-plist-1); use `set_fix_token(cases, probe_fixes())` to make it describe the tree under test
+  (default: all repairs).
 """
 import struct
 from vlib.core import Case, run_lines, harness_bin
@@ -385,11 +386,12 @@ def fmt_rec(kind, rec):
 
 # ------------------------------------------------------------------------------------------ imitation of PidIterator
 def walk_impl(data):
-    """what the implementation's PidIterator sees (it starts at offset 0): list of (pid, value, offset)"""
+    """what the implementation's PidIterator sees (it starts behind the 4-octet encapsulation header since
+    fixes/D-plist-1.patch): list of (pid, value, offset)"""
     if len(data) < 4 or data[1] not in (2, 3):
         return []
     E = ">" if data[1] == 2 else "<"
-    p, out = 0, []
+    p, out = 4, []
     while p < len(data):
         if p + 4 > len(data):
             break
@@ -572,6 +574,9 @@ def inject(r, kind, data, how_many=None):
 # ------------------------------------------------------------------------------------------ fix probing
 D11_EXEMPLAR = "dec participant 0003000050001000080808080808080808080808000001c1150004000204000016000400494a000058000400020000001440040000000000"
 D13_EXEMPLAR = "dec publication 000300002900040000000001"
+# all-default participant announcement in PL_CDR_BE (finding D-plist-1, repaired by fixes/D-plist-1.patch)
+P1_EXEMPLAR = ("dec participant 0002000000500010080808080808080808080808000001c1001500040204000000160004494a0000"
+               "005800040000000200020008000000640000000000010000")
 _FIX = None
 
 
@@ -586,6 +591,9 @@ def probe_fixes():
         _, o, _ = run_lines([harness_bin(ENGINE)], [D13_EXEMPLAR], timeout=60)
         if o and o[0] != "ALLOC-LIMIT":
             fx.append("13")
+        _, o, _ = run_lines([harness_bin(ENGINE)], [P1_EXEMPLAR], timeout=60)
+        if o and o[0].startswith("ok "):
+            fx.append("p1")
         _FIX = "fix=" + (",".join(fx) if fx else "-")
     return _FIX
 
@@ -608,7 +616,8 @@ def make_tis(r, n=4):
 def _mutations(r, data, kind):
     """structure-aware mutations of a valid list"""
     out = []
-    ps = walk_impl(data)[1:]          # without the header pseudo-parameter
+    ps = walk_impl(data)
+    E = ">" if data[1] == 2 else "<"
     n = len(data)
     # truncations
     for cut in {r.below(n + 1), n - 1, n - 2, n - 3, n - 4, n - 5, 4, 5, 3, 0} | ({p[2] + r.below(5) for p in ps[:3]} if ps else set()):
@@ -626,14 +635,14 @@ def _mutations(r, data, kind):
         for ln in r.shuffle([0, 1, 2, 3, len(v) - 1, len(v) + 1, len(v) + 4, len(v) - 4, 0xffff, 0xfffc, n, n - off - 4, n - off - 3])[:4]:
             if 0 <= ln <= 0xffff:
                 b = bytearray(data)
-                b[off + 2:off + 4] = struct.pack("<H", ln)
+                b[off + 2:off + 4] = struct.pack(E + "H", ln)
                 out.append(("plen", bytes(b)))
     # inner length / count fields (first 4 octets of the value) and second word
     for (pid, v, off) in r.shuffle([p for p in ps if len(p[1]) >= 4])[:4]:
         for w in r.shuffle([0, 1, 2, len(v) - 4, len(v) - 3, len(v), 0xffff, 0x10000, 0x01000000, 0x0aaaaaab, 0x7fffffff, 0x80000000, 0xffffffff])[:4]:
             b = bytearray(data)
             at = off + 4 + (4 if (len(v) >= 8 and r.chance(1, 4)) else 0)
-            b[at:at + 4] = struct.pack("<I", w)
+            b[at:at + 4] = struct.pack(E + "I", w)
             out.append(("ilen", bytes(b)))
     # header
     for h in r.shuffle([b"\0\2\0\0", b"\0\0\0\0", b"\0\1\0\0", b"\5\3\0\0", b"\0\4\0\0", b"\0\3\0\4", b"\0\3\1\0", b"\0\7\0\0", b"\1\2\0\0", b"\0\x0b\0\0"])[:3]:
@@ -646,8 +655,8 @@ def _mutations(r, data, kind):
     if ps:
         pid, v, off = r.choice(ps)
         v2 = bytes((x + 1) & 0xff for x in v)
-        out.append(("dupafter", data[:-4] + struct.pack("<HH", pid, len(v2)) + v2 + data[-4:]))
-        out.append(("dupbefore", data[:4] + struct.pack("<HH", pid, len(v2)) + v2 + data[4:]))
+        out.append(("dupafter", data[:-4] + struct.pack(E + "HH", pid, len(v2)) + v2 + data[-4:]))
+        out.append(("dupbefore", data[:4] + struct.pack(E + "HH", pid, len(v2)) + v2 + data[4:]))
     return out
 
 
@@ -655,19 +664,19 @@ def c07_cases(rng, tier, tis=None):
     """op lines `dec <kind> <hex> fix=11,13` over random, mutated and truncated parameter lists"""
     r = rng
     n_base = 40 if tier == "quick" else 1000
-    cases = [Case([D11_EXEMPLAR + " fix=11,13"], {"class": "corpus"}), Case([D13_EXEMPLAR + " fix=11,13"], {"class": "corpus"}),
-             Case(["dec publication 0003000073000400ffffffff fix=11,13"], {"class": "corpus"}),
-             Case(["dec participant 0002000000500010080808080808080808080808000001c1001500040204000000160004494a0000005800040000000200020008000000640000000000010000 fix=11,13"], {"class": "corpus"})]
+    cases = [Case([D11_EXEMPLAR + " fix=11,13,p1"], {"class": "corpus"}), Case([D13_EXEMPLAR + " fix=11,13,p1"], {"class": "corpus"}),
+             Case(["dec publication 0003000073000400ffffffff fix=11,13,p1"], {"class": "corpus"}),
+             Case(["dec participant 0002000000500010080808080808080808080808000001c1001500040204000000160004494a0000005800040000000200020008000000640000000000010000 fix=11,13,p1"], {"class": "corpus"})]
     ti = unhx(GOOD_TI)
     tip = struct.pack("<HH", 0x75, len(ti)) + ti
     for kind in ("topic", "publication", "subscription"):
         for hdr in (b"\0\3\0\0", b"\5\3\0\0", b"\5\2\0\0"):
-            cases.append(Case([f"dec {kind} {(hdr + tip + bytes([1, 0, 0, 0])).hex()} fix=11,13"], {"class": "corpus-ti"}))
+            cases.append(Case([f"dec {kind} {(hdr + tip + bytes([1, 0, 0, 0])).hex()} fix=11,13,p1"], {"class": "corpus-ti"}))
     seen = set()
     def add(kind, data, cls):
         if len(data) > 3000 and cls != "valid":
             return
-        line = f"dec {kind} {hx(data)} fix=11,13"
+        line = f"dec {kind} {hx(data)} fix=11,13,p1"
         if line not in seen:
             seen.add(line)
             cases.append(Case([line], {"class": cls}))
@@ -678,10 +687,8 @@ def c07_cases(rng, tier, tis=None):
         be = r.chance(1, 5)
         data = py_encode(kind, rec, be=be)
         add(kind, data, "valid-be" if be else "valid")
-        if be:
-            continue
         for cls, d in _mutations(r, data, kind):
-            add(kind, d, cls)
+            add(kind, d, cls + ("-be" if be else ""))
         # the same bytes decoded as another record kind
         add(KINDS[(i + 1 + r.below(3)) % 4], data, "otherkind")
     for i in range(n_base * 2):
